@@ -1086,6 +1086,11 @@ def adapt_typehints(
         try:
             val_class = import_object(resolve_class_path_by_name(typehint, val["class_path"]))
             if is_instance_or_supports_protocol(val_class, typehint):
+                if val.get("init_args") or val.get("dict_kwargs"):
+                    raise_unexpected_value(
+                        f"Import path {val['class_path']} corresponds to an instance of {typehint.__name__}, "
+                        "which does not accept init_args or dict_kwargs"
+                    )
                 return val_class  # importable instance
             if is_protocol(val_class):
                 raise_unexpected_value(f"Expected an instantiatable class, but {val['class_path']} is a protocol")
